@@ -157,7 +157,21 @@ func c07(c *Ctx) {
 	}
 	sort.Strings(names)
 	for _, n := range names {
-		st.analyse(c.P.Funcs[n])
+		fn := c.P.Funcs[n]
+		// a helper extracted by a later refactoring is analysed inside the functions that call it (explore() inlines
+		// it there, with the facts its callers established); analysing it alone would demand guards it never had
+		if hs := c.hostsOf(fn); !(len(hs) == 1 && hs[0] == fn) {
+			inScope := true
+			for _, h := range hs {
+				if !scope[h] {
+					inScope = false
+				}
+			}
+			if inScope {
+				continue
+			}
+		}
+		st.analyse(fn)
 	}
 	st.report()
 	st.explicitPanics(scope)
@@ -230,7 +244,7 @@ func (st *c07state) libFacts(x *core.Explorer, ev *core.Event) {
 	case "(*bufio.Reader).Peek":
 		p := ext(0)
 		x.AssumeLEq(x.Len(p), ev.Args[1])
-	case "strings.LastIndex", "strings.Index", "strings.IndexByte":
+	case "strings.LastIndex", "strings.Index", "strings.IndexByte", "strings.LastIndexByte":
 		x.AssumeGE(res, -1)
 		x.AssumeLit(x.Lt(res, x.Len(ev.Args[0])), true)
 	case "strings.SplitN":
@@ -568,7 +582,16 @@ func (st *c07state) report() {
 			r.Check(st.ruleName(), fn, s.key, s.in.Pos(), true, fmt.Sprintf("in bounds on all %d visits", s.visited))
 			continue
 		}
-		if reason, ok := c07Table[fn+" / "+s.key]; ok {
+		reason, ok := c07Table[fn+" / "+s.key]
+		if !ok {
+			// the construct may have moved into a helper extracted from the function the entry names
+			for _, h := range c.hostsOf(s.fn) {
+				if rs, has := c07Table[shortFn(h)+" / "+s.key]; has {
+					reason, ok = rs, true
+				}
+			}
+		}
+		if ok {
 			nTable++
 			r.Table("C07.panic-sites " + fn + " / " + s.key + ": " + reason)
 			r.Check(st.ruleName(), fn, s.key, s.in.Pos(), true, "discharged by reviewed table entry (not by analysis): "+reason)
